@@ -29,7 +29,7 @@ CHECKS = {
    note="Trusts the Go race detector's happens-before analysis (bounded shadow history), the separately compiled baseline, and the rule that the simulator never touches tengo memory from the controller. Four genuine defects found on the pinned tree were repaired by fix: commits (recorded in known_findings.json as fixed); one (Clone shares the captured-variable cells of closures held in globals) is listed as a known finding by the class of the disjointness invariant.",
    tech="deterministic simulation: seeded interleaving of clone executions on real goroutines + happens-before race analysis with simulator hand-offs hidden; solo-run and serial-witness oracles"),
  "C06": dict(cat="fault_enumeration", ref="DESIGN.md 5.3",
-   text="The allocation budget is the library's own allocation-failure injector: for every generated program the budget N is swept over every allocation index; relations between the runs are the oracle (limit error below the threshold, success with the unlimited run's globals at and above it, one more object-creating operation of each documented kind raises the threshold, k literal statements need a budget of at least k). String/bytes growers are run under a 4x4 grid of length maxima with every reachable String/Bytes measured after every run; recursion ladders are run around and beyond the frame and operand-stack capacity. Programs are sampled; the fault index space of each program is enumerated.",
+   text="The allocation budget is the library's own allocation-failure injector: for every generated program the budget N is swept over every allocation index; relations between the runs are the oracle (limit error below the threshold, success with the unlimited run's globals at and above it, one more object-creating operation of each documented kind raises the threshold, k literal statements need a budget of at least k). String/bytes growers are run under a grid of length maxima (fixed 8, 64, 1024, default plus values drawn per program, with operands of per-program length) with every reachable String/Bytes measured after every run; recursion ladders are run around and beyond the frame and operand-stack capacity. Programs are sampled; the fault index space of each program is enumerated.",
    note="Oracles are relations between runs of the same implementation under different limit settings; no implementation constant is mirrored except the exported StackSize/MaxFrames. Counting a site twice is deliberately not reported (the statement 'at most N' still holds).",
    tech="fault enumeration with the allocation budget as injector (crash-point sweep over every allocation index), limit knobs varied per run, unlimited run as reference"),
  "C14": dict(cat="fault_enumeration", ref="DESIGN.md 5.5",
